@@ -5,10 +5,9 @@ import ast
 from typing import Any
 
 from sa.kern import eval_kernel
-from sa.loopsum import (LoopSummariser, kvar, length_of, r_cell, r_sum,
-                        rename_bound)
+from sa.loopsum import (LoopSummariser, kvar, length_of, r_cell, r_sum)
 from sa.report import Ctx
-from sa.srcmodel import ClassInfo, FuncInfo, func_body, inline_locals
+from sa.srcmodel import func_body, inline_locals
 from sa.symterm import Poly, Unsupported, show
 
 OBJ = "moptipyapps.qap.objective"
@@ -385,55 +384,66 @@ def _bounds(ctx: Ctx) -> None:
 
 
 def _init(ctx: Ctx) -> None:
+    """The constructor computes (lb, ub) = trivial_bounds(distances, flows)
+    and only ever tightens them: the stored lower bound is >= the computed
+    one and the stored upper bound <= the computed one on every outcome of
+    the constructor's comparisons (values, not statement shapes)."""
+    from sa.casesplit import Splitter, describe, minmax_to_ite
+    from sa.guards import GuardWalk
+    from sa.kern import make_evaluator, py_calls
+    from sa.lin import entails
+    from sa.symterm import Env, Poly, Unsupported
     repo = ctx.repo
     init = repo.func(INST, "Instance.__init__")
     tb = repo.func(INST, "trivial_bounds")
-    lbv = ubv = None
     problems: list[str] = []
     node: ast.AST = init.node
-    for s in ast.walk(init.node):
-        if isinstance(s, ast.Assign) and len(s.targets) == 1:
-            t = s.targets[0]
-            if isinstance(t, ast.Tuple) and isinstance(
-                    s.value, ast.Call) and repo.resolve_expr(
-                    init.module, s.value.func) is tb:
-                names = [e.id for e in t.elts if isinstance(e, ast.Name)]
-                if len(names) == 2:
-                    lbv, ubv = names
-                args = [ast.unparse(a) for a in s.value.args]
-                if args != ["distances", "flows"]:
-                    problems.append(f"trivial_bounds called with {args}")
-                    node = s
-    ctx.need(lbv and ubv, "Instance.__init__: lb, ub = trivial_bounds(...)")
-    for s in ast.walk(init.node):
-        if isinstance(s, (ast.Assign, ast.AugAssign)):
-            tg = s.targets if isinstance(s, ast.Assign) else [s.target]
-            for t in tg:
-                if isinstance(t, ast.Name) and t.id in (lbv, ubv):
-                    want = "max" if t.id == lbv else "min"
-                    v = s.value
-                    good = isinstance(v, ast.Call) and isinstance(
-                        v.func, ast.Name) and v.func.id == want and any(
-                        isinstance(a, ast.Name) and a.id == t.id
-                        for a in v.args) and isinstance(s, ast.Assign)
-                    if not good:
-                        problems.append(
-                            f"`{ast.unparse(s)}` may "
-                            f"{'lower' if t.id == lbv else 'raise'} the "
-                            "computed bound")
-                        node = s
-                elif isinstance(t, ast.Attribute) and t.attr in (
-                        "lower_bound", "upper_bound") and isinstance(
-                        s, ast.Assign):
-                    want = lbv if t.attr == "lower_bound" else ubv
-                    if not (isinstance(s.value, ast.Name)
-                            and s.value.id == want):
-                        problems.append(f"self.{t.attr} is not {want}")
-                        node = s
+    LB0, UB0 = Poly.var("LB0"), Poly.var("UB0")
+    calls: list[ast.Call] = []
+
+    def hook(ev_: Any, env_: Any, n: ast.Call) -> Any:
+        if repo.resolve_expr(init.module, n.func) is tb:
+            calls.append(n)
+            return (LB0, UB0)
+        return py_calls(ev_, env_, n)
+    ev = make_evaluator(repo, init, extra_call=hook)
+    ev.int_transparent = True
+    gw = GuardWalk(ev)
+    env = Env()
+    env.vars["self"] = Poly.var("self")
+    out = gw.walk(env, func_body(init))
+    if len(calls) != 1:
+        problems.append("trivial_bounds is not called exactly once")
+    else:
+        args = [ast.unparse(a) for a in calls[0].args]
+        if args != list(tb.params) or calls[0].keywords:
+            problems.append(f"trivial_bounds called with {args}")
+            node = calls[0]
+    lbf, ubf = out.vars.get("self.lower_bound"), out.vars.get(
+        "self.upper_bound")
+    if not isinstance(lbf, Poly) or not isinstance(ubf, Poly):
+        problems.append("the bounds are not stored in self.lower_bound / "
+                        "self.upper_bound")
+    elif not problems:
+        sp = Splitter()
+        try:
+            for facts, (lo_, hi_), trail in sp.cases(
+                    (minmax_to_ite(lbf), minmax_to_ite(ubf))):
+                if not entails(facts, sp.lin(lo_ - LB0)):
+                    problems.append(
+                        f"[{describe(trail)[:160]}] the stored lower bound "
+                        f"{_sh_poly(lo_)} may be below the computed one")
+                if not entails(facts, sp.lin(UB0 - hi_)):
+                    problems.append(
+                        f"[{describe(trail)[:160]}] the stored upper bound "
+                        f"{_sh_poly(hi_)} may be above the computed one")
+        except Unsupported as u:
+            problems.append(f"cannot normalise the bounds: {u}")
     ctx.ob("D9.3", init, node, not problems,
            "constructor computes (lb, ub) = trivial_bounds(distances, "
-           "flows), only applies max() to lb and min() to ub, and stores "
-           "them" if not problems else "; ".join(problems),
+           "flows), only tightens them (stored lb >= computed lb, stored ub "
+           "<= computed ub on every path), and stores them"
+           if not problems else "; ".join(dict.fromkeys(problems)),
            construct="constructor only tightens bounds")
 
 
@@ -479,6 +489,12 @@ def _parser(ctx: Ctx) -> None:
                 repo.resolve_expr(fq.module, n.value.func) is icls:
             call = n.value
     ctx.need(call, "from_qaplib_stream returns Instance(...)")
+    # hoisted matrices are looked through
+    import copy as _copy
+    call = _copy.deepcopy(call)
+    call.args = [inline_locals(fq.node, a) for a in call.args]
+    for kw in call.keywords:
+        kw.value = inline_locals(fq.node, kw.value)
     binding: dict[str, str] = {}
     for p, a in zip(init.params[1:], call.args):
         names = {x.id for x in ast.walk(a) if isinstance(x, ast.Name)}
